@@ -725,6 +725,25 @@ NOMOVE_REASONS = {
 }
 
 
+def _nomove_premise(ctx, op, callee):
+    """The structural premise of a NOMOVE reason, where it has one.  For the in-place shifts the reason is "n of the 2n.. bits
+    are removed, never all of them": that holds only while the padding is added BEFORE the truncation."""
+    if (op, callee) not in (('__ilshift__', '_clear'), ('__irshift__', '_clear')):
+        return True
+    m = ctx.m
+    core = m.classes['Bits'].methods.get('_ilshift' if op == '__ilshift__' else '_irshift')
+    cands = [core] if core is not None else []
+    for c in ('BitArray', 'BitStream'):
+        cands += m.winner(c, op)
+    for f in cands:
+        calls = [x for x in own_walk(f.node) if isinstance(x, ast.Call) and isinstance(x.func, ast.Attribute)]
+        trunc = [x for x in calls if x.func.attr in ('_truncateleft', '_truncateright')]
+        grow = [x for x in calls if x.func.attr in ('_addright', '_addleft', '_append', '_prepend', 'append', 'prepend')]
+        if trunc:
+            return bool(grow) and min(g_.lineno for g_ in grow) < min(t_.lineno for t_ in trunc)
+    return True          # no truncation helper on this route: nothing to order
+
+
 def rule_NOMOVE(ctx):
     """Operations that are not documented to move pos never run (on self) a stream-level function that writes _pos."""
     m = ctx.m
@@ -752,7 +771,7 @@ def rule_NOMOVE(ctx):
                     g = m.funcs[cn[0]]
                     gself = g.params()[0] if g.params() else 'self'
                     if g.cls in STREAMS and any(isinstance(st.value, ast.Name) and st.value.id == gself for st in _pos_stores(g)):
-                        if (name, g.name) in NOMOVE_REASONS:
+                        if (name, g.name) in NOMOVE_REASONS and _nomove_premise(ctx, name, g.name):
                             continue
                         bad = (g, cs, path + (g.name,))
                         break
